@@ -64,6 +64,20 @@ def float_order(R, ctx):
             if x.get("k") == "Const" and x.get("def", "").endswith("::EPSILON"):
                 R.ob(rid, "%s|EPSILON" % f["path"].split("::")[-1], False, ctx.where(f, x.get("ln")),
                      "evaluator compares numbers within f64::EPSILON: `0.1 + 0.2 == 0.3` folds to true and `(1/0) == (1/0)` to false, Lua says the opposite")
+    # number -> string: Rust's Display is not Lua's %.14g / Luau's shortest form outside a safe range
+    k = 0
+    for f in lib.fn_list:
+        if not f["path"].startswith("process::evaluator::") or not thir.body_of(f) or "::test" in f["path"]:
+            continue
+        for c in thir.calls(f):
+            if c.get("fname") == "to_string" and c["args"] and lib.ty_str(lib.strip_refs(c["args"][0]["t"])) in ("f64", "f32"):
+                k += 1
+                out = lib.ty_str(f["sig"]["output"])
+                guarded = "Option" in out and any(x.get("fname") == "is_finite" for x in thir.calls(f))
+                R.ob(rid, "%s|number-to-string" % f["path"].split("::")[-1], guarded, ctx.where(f, c.get("ln")),
+                     "f64 formatted with Rust's Display %s" % ("inside a partial formatter (Option result, finiteness/range checked)" if guarded else
+                        "unconditionally: `1e100 .. \"\"` folds to a 101-digit string, `(0/0) .. \"\"` to \"NaN\"; Lua gives \"1e+100\" and \"nan\""))
+    R.require(rid, "floor:number-formatting-sites", k >= 1, "", "%d number formatting sites" % k)
     R.ob(rid, "evaluator-functions-scanned", n >= 25, "", "%d evaluator functions scanned (floor 25)" % n)
 
 
